@@ -592,7 +592,13 @@ def thread_action(a, where):
                 rec['name'] = threading.current_thread().name
             started.set()
             if a.get('hold'):
-                ev.wait(60)
+                t0 = time.monotonic()
+                while not ev.wait(0.004) and time.monotonic() - t0 < 60:
+                    if rec.get('cmd') == 'register':
+                        # only now does the raw thread call into ``threading`` for the first time
+                        rec['name'] = threading.current_thread().name
+                        rec['cmd'] = None
+                        rec['cmd_done'].set()
             rec['done'].set()
 
         if a.get('api') == '_thread':
@@ -616,6 +622,13 @@ def thread_action(a, where):
             _wait_gone(rec)
         emit('thread_start', tag=a['tag'], ident=rec['ident'], name=rec.get('name'), where=where,
              hold=bool(a.get('hold')), api=a.get('api', 'threading'))
+    elif op == 'register':
+        rec = _threads.get(a['tag'])
+        if rec is not None and rec.get('thread') is None and not rec['done'].is_set():
+            rec['cmd_done'] = threading.Event()
+            rec['cmd'] = 'register'
+            if rec['cmd_done'].wait(10):
+                emit('thread_registered', tag=a['tag'], name=rec.get('name'), where=where)
     elif op == 'rename':
         rec = _threads.get(a['tag'])
         if rec is not None and rec.get('thread') is not None and not rec['done'].is_set():
